@@ -203,6 +203,8 @@ pub struct Engine {
     pub calls: usize,
     /// abs/min/max/signum build Ite terms instead of forking
     pub ite_mode: bool,
+    /// integer scenario (SymI): emit Int-sorted scripts
+    pub int_mode: bool,
     /// SymI: obligations "intermediate stays within the machine range" (cond ids that must hold)
     pub range_obl: Vec<(String, Fm)>,
     // recorder
@@ -242,6 +244,7 @@ impl Default for Engine {
             max_decisions: 48,
             calls: 0,
             ite_mode: false,
+            int_mode: false,
             range_obl: vec![],
             pre: vec![],
             goals: vec![],
@@ -287,6 +290,7 @@ impl Engine {
         self.drawn.clear();
         self.check_defined = false;
         self.ite_mode = false;
+        self.int_mode = false;
         self.fresh = 0;
     }
     pub fn mk(&mut self, n: Node) -> u32 {
@@ -400,6 +404,9 @@ pub fn check_defined() {
 }
 pub fn set_ite_mode(on: bool) {
     with(|e| e.ite_mode = on);
+}
+pub fn set_int_mode() {
+    with(|e| e.int_mode = true);
 }
 pub fn set_max_decisions(n: usize) {
     with(|e| e.max_decisions = n);
